@@ -422,7 +422,7 @@ func init() {
 					}
 					sh := img.dbis[syncer.SyncDBIShadowPrefix+string(mustUnhx(f[1]))]
 					if v, ok := shadowVer(sh, mustUnhx(f[2])); ok && !v.del && bytes.Equal(v.val, mustUnhx(f[3])) && len(v.val) > 0 &&
-						v.ts >= uint64(w.ta) && v.ts < uint64(commitAt.UnixNano()) {
+						v.ts >= w.tb && v.ts < uint64(commitAt.UnixNano()) {
 						return fmt.Sprintf("FAIL captured-change-stamped-before-its-commit key=%s stamped=%d committed-after=%d", f[2], v.ts, commitAt.UnixNano())
 					}
 				}
